@@ -1,5 +1,11 @@
 package main
 
+import (
+	"os"
+	"path/filepath"
+	"strings"
+)
+
 type check struct {
 	id             string
 	bin            binKey
@@ -45,7 +51,40 @@ var (
 	simRoot   = binKey{"sim", "."}
 )
 
+// discover registers every harness file named cNN[_...]_test.go that has no explicit entry.
+func discover() {
+	for _, fl := range []string{"plain", "sim"} {
+		dirs, _ := os.ReadDir(filepath.Join(verifDir, "harness", fl))
+		for _, d := range dirs {
+			pkg := strings.ReplaceAll(d.Name(), "__", "/")
+			if d.Name() == "_root" {
+				pkg = "."
+			}
+			files, _ := os.ReadDir(filepath.Join(verifDir, "harness", fl, d.Name()))
+			for _, f := range files {
+				n := f.Name()
+				if len(n) < 4 || n[0] != 'c' || !strings.HasSuffix(n, "_test.go") {
+					continue
+				}
+				id := "C" + n[1:3]
+				if n[1] < '0' || n[1] > '9' || n[2] < '0' || n[2] > '9' {
+					continue
+				}
+				if _, ok := registry[id]; ok {
+					continue
+				}
+				c := check{id: id, bin: binKey{fl, pkg}, engine: "enum"}
+				if fl == "sim" {
+					c.engine, c.gomaxprocs, c.quickShards, c.thoroughShards = "gosim", 1, 8, 16
+				}
+				reg(c)
+			}
+		}
+	}
+}
+
 func init() {
+	defer discover()
 	reg(check{id: "C18", bin: plainCmds, engine: "enum", quickShards: 1, thoroughShards: 16})
 	reg(check{id: "C02", bin: simRoot, engine: "gosim", quickShards: 8, thoroughShards: 16, gomaxprocs: 1})
 	reg(check{id: "C24", bin: simRoot, engine: "gosim", quickShards: 8, thoroughShards: 16, gomaxprocs: 1})
